@@ -63,6 +63,8 @@ def gen_desc(seed, tier):
         "export": r.choice(["csv", "json", "dataframe"]), "save_path": r.choice([None, "out", "deep/er/dir"]),
         "clock": r.choice([[0], [1], [0, 0, 1], [-5, 3], [3600], [1, -1]]),
         "export_twice": r.random() < 0.3,
+        # an optimizer object may have been used stand-alone before it is handed to Multitask
+        "prior_use": [r.choice([None, None, "thread", "process", "serial"]) for _ in range(n)],
     }
 
 
@@ -130,6 +132,16 @@ def execute(desc):
     try:
         os.chdir(scratch)
         with contextlib.redirect_stdout(buf):
+            for i, pm in enumerate(desc.get("prior_use") or []):
+                if pm and i < len(algos):
+                    try:
+                        algos[i].optimize(tsk[0], mode=pm, workers=2)
+                        sim.count("prior_standalone_runs")
+                    except kernel.SimAbort:
+                        raise
+                    except BaseException:
+                        pass
+            sim.obs["party_runs"] = []
             try:
                 mt = pv.Multitask(algorithms=algos, tasks=tsk, modes=modes, n_workers=desc["n_workers"])
             except kernel.SimAbort:
@@ -212,9 +224,8 @@ def execute(desc):
                 for i in range(n) for j in range(m)}
         add("wrong_mode", f"modes={desc['modes']} ({desc['shape']}, n={n}, m={m}) but the pairs ran as {seen}")
     if desc["n_workers"] is not None:
-        bad = [r for r in runs if r["workers"] != desc["n_workers"]]
-        if bad:
-            add("wrong_workers", f"a run used workers={bad[0]['workers']}, n_workers={desc['n_workers']}")
+        # probe only: the statement designates the *mode* of every pair, it says nothing about the worker count
+        stats["probe_runs_with_other_worker_count"] = sum(1 for r in runs if r["workers"] != desc["n_workers"])
     # -- tables
     if tables is None or len(tables) != n:
         add("table_shape", f"{None if tables is None else len(tables)} result tables for {n} algorithms")
@@ -258,7 +269,8 @@ def run_job(job):
             "key": json.dumps([desc["n"], desc["m"], desc["shape"], desc["modes"], desc["n_trials"], desc["n_jobs"],
                                desc["n_workers"], desc["cpu_count"], desc["export"], desc["save_path"], desc["clock"],
                                sorted(f["kind"] for f in desc["faults"])]),
-            "clock_reads": st.get("clock_reads", 0), "wall": time.time() - t0}
+            "clock_reads": st.get("clock_reads", 0), "wall": time.time() - t0,
+            "other_worker_count": st.get("probe_runs_with_other_worker_count", 0)}
 
 
 def replay(pid, desc):
@@ -302,6 +314,7 @@ def evidence(pid, tier, seed, jobs, results, good, wall):
         "samples": [{"job": j["i"], "seed": j["seed"], "case": gen_desc(j["seed"], j["tier"])} for j, r in good[:2]],
         "cases_by_modes_shape": shapes, "optimizer_runs_observed": sum(r["runs"] for j, r in good),
         "files_created": sum(r["files"] for j, r in good),
+        "probe_runs_with_other_worker_count": sum(r.get("other_worker_count", 0) for j, r in good),
         "simulated_time": {"events_logical_ticks": sum(r["nevents"] for j, r in good),
                            "clock_reads": sum(r["clock_reads"] for j, r in good)},
         "faults_fired": dict(fired, clock_plans=sum(1 for j, r in good if r["clock_reads"])), "probes": probes,
